@@ -199,4 +199,8 @@ def units(tier, seed):
             chosen = hs if pn in PROGS_Q else [h for h in hs if len(h) <= 2] + rng.sample([h for h in hs if len(h) > 2], 30)
         for h in sorted(set(chosen)):
             out.append(Unit('C06/%s/%s' % (pn, '>'.join(h)), 'symx.props.c06', 'h_history', {'pname': pn, 'seq': list(h)}, dict(opts)))
+    # using a finished graph while another one is being recorded is part of a call history too
+    for what in ('function', 'gradient', 'pushforward+pullback'):
+        out.append(Unit('C06/another graph used while recording (%s)' % what, 'symx.props.c05', 'h_interleaved',
+                        {'rec': 'nd', 'replay': ('utpm', 2, 2), 'what': what}, dict(opts)))
     return out
